@@ -47,6 +47,7 @@ From ASModel Require Import Base State Orderings_gen Step Run Progress Hist Loca
 From ASModel Require Import GenDefs Gen1 Gen2 Gen EnvDefs Env4 Env AccDefs Acc1 Acc2 Acc3 Acc4 Acc5 Acc6 Acc7 Acc.
 From ASModel Require Import ProtDefs Prot1 Prot11 Prot16 Prot Typed LinDefs Lin2 Lin Safe1 Safe2 Safe7 Safe8 Safe Main GenLen.
 From ASModel Require Import Stale StaleInv.
+From ASModel Require Import Stale2 Stale2Inv.
 
 Theorem C03_fast_confirm : forall cf s l c v j x,
   let n := own_node l in
@@ -154,3 +155,24 @@ Theorem C03_load_linearizable_stale cf inits progs sched :
 Proof. exact (StaleInv10.C03_load_linearizable_stale cf inits progs sched). Qed.
 
 Print Assumptions C03_load_linearizable_stale.
+
+(** ** With all four stale loads of [Stale2.step_stale2] (see Props/C01.v). *)
+Theorem C03_load_linearizable_stale2 cf inits progs sched :
+  RunOKS2 cf inits progs sched ->
+  let s0 := init_state inits progs in
+  forall t i cm c h pa pb xa tb xb,
+  nth_error (t_prog (thr s0 t)) (N.to_nat i) = Some cm -> is_load_of cm c h ->
+  (pa <= pb)%nat ->
+  nth_error sched pa = Some (t, xa) ->
+  t_status (thr (StS2 cf s0 sched pa) t) = Running -> t_stack (thr (StS2 cf s0 sched pa) t) = [] ->
+  t_cmdi (thr (StS2 cf s0 sched pa) t) = i ->
+  nth_error sched pb = Some (tb, xb) ->
+  t_cmdi (thr (StS2 cf s0 sched pb) t) = i -> t_cmdi (thr (StS2 cf s0 sched (S pb)) t) = i + 1 ->
+  exists v, (match cm with
+             | CLoad _ _ => exists d, hnd (StS2 cf s0 sched (S pb)) h = HGuard v d
+             | _ => hnd (StS2 cf s0 sched (S pb)) h = HOwned v
+             end) /\
+    exists k, (pa + 1 <= k <= pb + 1)%nat /\ mem (sh (StS2 cf s0 sched k)) (LStore c) = v.
+Proof. exact (Stale2Inv12.C03_load_linearizable_stale2 cf inits progs sched). Qed.
+
+Print Assumptions C03_load_linearizable_stale2.
